@@ -246,12 +246,16 @@ fn c06_golden(t: &dyn TypeOps, cx: &mut Cx, n: usize, rth: u64, rah: u64) {
 pub fn goldgen(t: &dyn TypeOps, cx: &mut Cx) {
     let (th, ah) = t.hashes();
     cx.notes.push(format!("HASH {} {:016x} {:016x}", cx.type_id, th, ah));
-    let n = build(t, cx);
-    let pick: Vec<usize> = if n <= 3 { (0..n).collect() } else { vec![0, n / 2, n - 1] };
-    for i in pick {
-        cx.evals += 1;
-        if let Out::Ok((b, _)) = t.ser(i) {
-            cx.notes.push(format!("CORPUS {}\t{}\t{:?}", cx.type_id, hex(&b), t.val(i)));
+    let mut seen = std::collections::HashSet::new();
+    for cap in [cap_for(Tier::Quick), cap_for(Tier::Thorough)] {
+        let (n, _, _) = t.build_domain(cap);
+        let pick: Vec<usize> = if n <= 3 { (0..n).collect() } else { vec![0, n / 2, n - 1] };
+        for i in pick {
+            cx.evals += 1;
+            if let Out::Ok((b, _)) = t.ser(i) {
+                let line = format!("CORPUS {}\t{}\t{:?}", cx.type_id, hex(&b), t.val(i));
+                if seen.insert(line.clone()) { cx.notes.push(line); }
+            }
         }
     }
     cx.case(0, true);
